@@ -13,12 +13,11 @@ All statements are about `Model/Round.lean`, tied to `chaincore/round/entity.go`
 `Cfg.code` is the code as it exists (since repo commit 4a40ef6 the rejected branch of `Restart` unlocks before it
 returns); `Cfg.before4a40ef6` is the control flow before that commit, used only by the theorems labelled HISTORICAL.
 
-`ops_return` is the FULL statement and holds of the code. Two other parts of the full statement are FALSE of the
-code (each confirmed on the real code by the harness):
+`ops_return` and `phase_monotone_conc` are FULL statements and hold of the code (`setPhase` is a compare-and-swap
+loop since repo commit 8870ba0; the old load-then-store and its lost update are kept only as HISTORICAL statements).
+One part of the full statement is FALSE of the code (confirmed on the real code by the harness):
 * `timeout_monotone` — `checkCap` lowers a count that `SetTimeoutCount` put above `timeout_cap`
-  (`timeout_monotone_false`);
-* `phase_monotone_conc` — the exported `SetPhase` is an unlocked load-then-store (`phase_monotone_conc_false`).
-For each: the negation witness and the `_partial` theorem that does hold.
+  (`timeout_monotone_false`), with the `_partial` theorem that does hold.
 -/
 namespace ZChain.Round
 
@@ -438,27 +437,44 @@ theorem conditional_reset (cfg : Cfg) (s : R) (h : Free s) :
 
 /-! ## phase under concurrency (all interleavings of atomic steps) -/
 
-open Conc in
-/-- **phase_monotone_conc_partial**: if every writer of the phase runs `setPhase` under `r.mutex` (as
-`AddNotarizedBlock` and `AddVRFShare` do), then along EVERY schedule of atomic steps, for any number of
-threads each making any number of such calls, no step lowers the phase. -/
-theorem phase_monotone_conc_partial (p0 : Int) (progs : List (List Int)) (sched : List Nat) :
-    (Conc.trace (Conc.initCS p0 (progs.map fun vs => (vs.map Conc.lockedSetPhaseI).flatten)) sched).Pairwise (· ≤ ·) :=
-  Conc.locked_trace_monotone p0 progs sched
+/-- **phase_monotone_conc** (FULL STATEMENT): any number of threads, each making any sequence of `SetPhase(v)` calls
+(unlocked, as the miner calls it at miner/round.go:225, miner/protocol_round.go:830 and :1158) and of `setPhase(v)`
+calls under `r.mutex` (`AddNotarizedBlock`, `AddVRFShare`), any initial phase, EVERY schedule of atomic steps
+(loads, compare-and-swaps with their retries, lock acquisitions): the phase never goes down. -/
+theorem phase_monotone_conc (p0 : Int) (progs : List (List Conc.Call)) (sched : List Nat) :
+    (Conc.trace (Conc.initCS p0 (progs.map Conc.prog)) sched).Pairwise (· ≤ ·) := by
+  apply Conc.trace_pairwise
+  apply Conc.init_safe
+  intro p hp
+  obtain ⟨cs, _, rfl⟩ := List.mem_map.mp hp
+  exact Conc.prog_safe cs
 
-/-- FULL STATEMENT (false of the code): the same for the programs the code really runs, where the exported
-`SetPhase` (called by the miner at miner/round.go:225, miner/protocol_round.go:830 and :1158) does NOT take the mutex.
+/-- the same for arbitrary instruction lists of lock / unlock / load / cas (threads need not even pair their locks):
+without an explicit `ResetPhase`, no atomic step lowers the phase. -/
+theorem phase_monotone_conc_any_program (p0 : Int) (progs : List (List Conc.Instr))
+    (h : ∀ p ∈ progs, ∀ ins ∈ p, ins.safe = true) (sched : List Nat) :
+    (Conc.trace (Conc.initCS p0 progs) sched).Pairwise (· ≤ ·) :=
+  Conc.trace_pairwise sched _ (Conc.init_safe p0 progs h)
 
-**phase_monotone_conc_false** — negation witness: thread 0 = `SetPhase(Verify)` (unlocked), thread 1 =
-`AddNotarizedBlock` (`setPhase(Share)` under the mutex). Schedule: 0 loads 0; 1 locks, loads, stores 3,
-unlocks; 0 stores 1. The phase goes 0 → 3 → 1. -/
-theorem phase_monotone_conc_false :
-    Conc.trace (Conc.initCS 0 [Conc.setPhaseI Verify, Conc.lockedSetPhaseI Share]) [0, 1, 1, 1, 1, 0] = [0, 0, 0, 0, 3, 3, 1] := by
+/-- the schedule that used to lose an update, with the code as it is: thread 0 = `SetPhase(Verify)`, thread 1 =
+`AddNotarizedBlock`. 0 loads 0; 1 locks, loads, swaps 0→3, unlocks; 0's compare-and-swap fails (the word is 3, not
+0), it reloads 3 and returns. The phase goes 0 → 3 and stays. -/
+example : Conc.trace (Conc.initCS 0 [Conc.setPhaseI Verify, Conc.lockedSetPhaseI Share]) [0, 1, 1, 1, 1, 0, 0, 0]
+    = [0, 0, 0, 0, 3, 3, 3, 3, 3] := by decide
+
+/-! ### HISTORICAL — `setPhase` before repo commit 8870ba0 (load, then store if greater)
+
+What the defect recorded as `C37:setphase-lost-update` (now "fixed") was. Not about the code as it exists. -/
+
+/-- HISTORICAL: thread 0 = old `SetPhase(Verify)` (unlocked), thread 1 = old `setPhase(Share)` under the mutex.
+0 loads 0; 1 locks, loads, stores 3, unlocks; 0 stores 1. The phase went 0 → 3 → 1. -/
+theorem historical_phase_lost_update :
+    Conc.trace (Conc.initCS 0 [Conc.setPhaseOldI Verify, Conc.lockedSetPhaseOldI Share]) [0, 1, 1, 1, 1, 0] = [0, 0, 0, 0, 3, 3, 1] := by
   decide
 
-/-- the same lost update with two unlocked `SetPhase` calls -/
-theorem phase_monotone_conc_false_two_unlocked :
-    Conc.trace (Conc.initCS 0 [Conc.setPhaseI Verify, Conc.setPhaseI Complete]) [0, 1, 1, 0] = [0, 0, 0, 4, 1] := by
+/-- HISTORICAL: the same lost update with two unlocked old `SetPhase` calls -/
+theorem historical_phase_lost_update_two_unlocked :
+    Conc.trace (Conc.initCS 0 [Conc.setPhaseOldI Verify, Conc.setPhaseOldI Complete]) [0, 1, 1, 0] = [0, 0, 0, 4, 1] := by
   decide
 
 /-! ## finalizing state under concurrency (all interleavings of atomic steps) -/
